@@ -48,6 +48,12 @@ pub struct ReplayFile {
     pub note: String,
 }
 
+/// Where evidence and replay files go (default: the verif directory; VERIF_OUT redirects them, used when
+/// a scratch copy of the repository is checked so the real tree's evidence is not overwritten).
+pub fn out_dir() -> PathBuf {
+    std::env::var("VERIF_OUT").map(PathBuf::from).unwrap_or_else(|_| verif_dir())
+}
+
 pub fn verif_dir() -> PathBuf {
     std::env::var("VERIF_DIR").map(PathBuf::from).unwrap_or_else(|_| PathBuf::from("/verif"))
 }
@@ -215,7 +221,7 @@ pub struct CtxSummary {
 
 fn write_replay(prop: &dyn Property, v: &Violation, known: &[String], tier: Tier) -> PathBuf {
     let (_, summary) = run_one(prop, &v.case, tier, known, true, true);
-    let dir = verif_dir().join("replays");
+    let dir = out_dir().join("replays");
     let _ = std::fs::create_dir_all(&dir);
     let body = serde_json::to_string(&v.case).unwrap_or_default();
     let h = fnv(body.as_bytes());
@@ -600,7 +606,7 @@ pub fn run(prop: &dyn Property, opt: &RunOptions) -> i32 {
         "violations": violations.len(),
         "inconclusive": inconclusive,
     });
-    let ev_dir = verif_dir().join("evidence");
+    let ev_dir = out_dir().join("evidence");
     let _ = std::fs::create_dir_all(&ev_dir);
     let ev_path = ev_dir.join(format!("{}.json", id));
     if let Err(e) = std::fs::write(&ev_path, serde_json::to_string_pretty(&evidence).unwrap()) {
